@@ -461,9 +461,12 @@ func (r *Reader) MarkdownWithRAGOptions(extractOpts ExtractOptions, mdOpts rag.M
 
 // writeMarkdownListItem writes a list item in markdown format.
 func (r *Reader) writeMarkdownListItem(sb *strings.Builder, para *parsedParagraph, listCounters map[string]map[int]int) {
-	// Add indentation for nested lists (2 spaces per level)
+	// Add indentation for nested lists (4 spaces per level). A nested item must
+	// be indented at least to the content column of its parent item, which is
+	// 2 for "- " but 3 for "1. " and 4 for "10. ": with 2 spaces per level an
+	// item nested under a numbered item is parsed as its sibling.
 	for j := 0; j < para.ListLevel; j++ {
-		sb.WriteString("  ")
+		sb.WriteString("    ")
 	}
 
 	// Determine if ordered or unordered from style
